@@ -258,6 +258,10 @@ func genNodeID(rng *rand.Rand) string {
 		return ""
 	case 1:
 		return "unknown"
+	case 2:
+		// another spelling of a known id: to the store a different identifier (ids are opaque strings)
+		id := pick(rng, nodeAlphabet)
+		return []string{strings.ToUpper(id), "0x" + id, " " + id + " ", id + "\x00"}[rng.Intn(4)]
 	}
 	return pick(rng, nodeAlphabet)
 }
